@@ -89,7 +89,8 @@ def run(ctx: Ctx) -> None:
         ctx.count("outcome", "tree")
         if want is not None and r["flat"] != want:
             ctx.violation("grouping differs from the documented precedence",
-                          {"entry": "parse_condition_expression_to_tree", "s": s, "expected_flat": want, "got_flat": r["flat"]}, key=f"group:{s}")
+                          {"entry": "parse_condition_expression_to_tree", "s": s, "expected_flat": want, "got_flat": r["flat"],
+                           "passed_by_keyword": P._by_keyword(s), "parser_calls_before (parser, string, by keyword)": P.recent()[:-1]}, key=f"group:{s}")
     for _, s, want in cases[:3] + cases[-2:]:
         ctx.sample({"s": s, "flat": want})
     if drv:
@@ -109,6 +110,8 @@ def run(ctx: Ctx) -> None:
 
 def replay(ctx: Ctx, data) -> int:
     r = data["replay"]
+    for which, s0, _ in r.get("parser_calls_before (parser, string, by keyword)", []):
+        (P.parse_cond if which == "cond" else P.parse_ahb)(s0)
     out = P.parse_cond(r["s"])
     print("impl:", out.get("flat", out.get("err")))
     print("expected:", r.get("expected_flat"))
